@@ -138,6 +138,7 @@ func H_C02_session() {
 	}
 	vAssert("est:one-created-pdr-per-up-chosen-value", len(r.CreatedPDR) == wantCreated)
 	up := fs.SEID
+	ups := []uint64{up} // UP SEIDs of every live session
 
 	// later requests are addressed by the UP F-SEID
 	for step := 0; step < vC02Steps; step++ {
@@ -169,7 +170,9 @@ func H_C02_session() {
 		case 1:
 			vTag("mod-unknown")
 			other := vU64("unknown_seid")
-			vAssume(other != up)
+			for _, k := range ups {
+				vAssume(other != k)
+			}
 			e.vSend(message.NewSessionModificationRequest(0, 0, other, seq2, 0, fars[1].update()))
 			m := e.vExpectReply("modu", before, message.MsgTypeSessionModificationResponse, seq2).(*message.SessionModificationResponse)
 			vAssert("modu:rejected", vCauseOf(m.Cause) >= 64)
@@ -197,7 +200,9 @@ func H_C02_session() {
 		case 3:
 			vTag("del-unknown")
 			other := vU64("unknown_seid")
-			vAssume(other != up)
+			for _, k := range ups {
+				vAssume(other != k)
+			}
 			e.vSend(vDeletion(seq2, other))
 			d := e.vExpectReply("delu", before, message.MsgTypeSessionDeletionResponse, seq2).(*message.SessionDeletionResponse)
 			vAssert("delu:rejected", vCauseOf(d.Cause) >= 64)
@@ -215,6 +220,7 @@ func H_C02_session() {
 				fs2, _ := r2.UPFSEID.FSEID()
 				vAssert("est2:up-fseid-nonzero", fs2.SEID != 0)
 				vAssert("est2:up-fseid-differs-from-live-session", fs2.SEID != up)
+				ups = append(ups, fs2.SEID)
 			}
 		}
 	}
